@@ -148,8 +148,24 @@ class SendUdp(VU):
             conds.append(len(t.fields["sent"]) == 1)
         return And(*conds)
 
+    def counter_name(self, interp):
+        """the loop's counter is addressed by role: the one local the `while` condition tests"""
+        if getattr(self, "_counter", None) is None:
+            import ast
+            from pyvc.interp import nth_loop, loop_assigned_names
+            fi = interp.program.find_function(T_SEND)
+            loop = nth_loop(fi.node, 0) if fi is not None else None
+            if loop is None:
+                raise Undecided("send_udp has no `while` loop any more: the loop contract has nothing to attach to")
+            names = [n.id for n in ast.walk(loop.test) if isinstance(n, ast.Name)]
+            if len(names) != 1:
+                raise Undecided("send_udp: the loop condition does not test exactly one local (%r)" % names)
+            self._counter = names[0]
+            self._temporaries = sorted(loop_assigned_names(loop) - {names[0]})
+        return self._counter
+
     def invariant(self, interp, frame, when):
-        retries = frame.locals.get("retries")
+        retries = frame.locals.get(self.counter_name(interp))
         out = []
         if when == "assume":
             # ghost counters of the havocked state
@@ -167,9 +183,10 @@ class SendUdp(VU):
 
     def havoc(self, interp, frame):
         ctx = interp.ctx
-        frame.locals["retries"] = ctx.fresh_int("retries_left")
-        frame.locals.pop("response", None)
-        frame.locals.pop("protocol", None)
+        from pyvc.interp import Poison
+        frame.locals[self.counter_name(interp)] = ctx.fresh_int("retries_left")
+        for name in self._temporaries:
+            frame.locals[name] = Poison(name)
         self.attempts = ctx.fresh_int("attempts_so_far")
         self.transports, self.protocols, self.outcome_log, self.timeouts_waited = [], [], [], 0
         # virtual time that has passed: one timeout per earlier attempt (a product of two unknowns; the consequences
@@ -179,7 +196,7 @@ class SendUdp(VU):
         self.now = lift_int(zint(self.now0) + zint(elapsed))
 
     def variant(self, interp, frame):
-        return frame.locals.get("retries")
+        return frame.locals.get(self.counter_name(interp))
 
     # ------------------------------------------------------------------ unit
     def run(self, interp):
